@@ -76,21 +76,23 @@ impl<'key, 'data> MultipartBuilder<'key, 'data> {
 
     /// Creates a `Multipart` to be used as a body.
     pub fn build(self) -> Result<Multipart<'data>> {
-        let mut mp = crate::multipart_crate::lazy::Multipart::new();
-        for (k, v) in self.text {
-            mp.add_text(k, v);
-        }
-        for file in self.files {
-            mp.add_stream(file.name, Cursor::new(file.file), file.filename, file.mime);
-        }
-        let prepared = mp.prepare().map_err::<IoError, _>(Into::into)?;
-        Ok(Multipart { data: prepared })
+        Ok(Multipart {
+            boundary: crate::multipart_crate::gen_boundary(),
+            text: self.text.into_iter().map(|(k, v)| (k.to_owned(), v)).collect(),
+            files: self
+                .files
+                .into_iter()
+                .map(|f| (f.name.to_owned(), f.file, f.filename.map(str::to_owned), f.mime))
+                .collect(),
+        })
     }
 }
 
 /// A multipart form created using `MultipartBuilder`.
 pub struct Multipart<'data> {
-    data: crate::multipart_crate::lazy::PreparedFields<'data>,
+    boundary: String,
+    text: Vec<(String, &'data str)>,
+    files: Vec<(String, &'data [u8], Option<String>, Option<Mime>)>,
 }
 
 impl Body for Multipart<'_> {
@@ -98,13 +100,25 @@ impl Body for Multipart<'_> {
         Ok(BodyKind::Chunked)
     }
 
+    // The body is serialized anew on every call, with the same boundary, so that it can be sent
+    // again when the request is redirected.
     fn write<W: Write>(&mut self, mut writer: W) -> IoResult<()> {
-        copy(&mut self.data, &mut writer)?;
+        let mut mp = crate::multipart_crate::lazy::Multipart::new();
+        for (k, v) in &self.text {
+            mp.add_text(k.as_str(), *v);
+        }
+        for (name, file, filename, mime) in &self.files {
+            mp.add_stream(name.as_str(), Cursor::new(*file), filename.as_deref(), mime.clone());
+        }
+        let mut prepared = mp
+            .prepare_with_boundary(&self.boundary)
+            .map_err::<IoError, _>(Into::into)?;
+        copy(&mut prepared, &mut writer)?;
         Ok(())
     }
 
     fn content_type(&mut self) -> IoResult<Option<String>> {
-        Ok(Some(format!("multipart/form-data; boundary={}", self.data.boundary())))
+        Ok(Some(format!("multipart/form-data; boundary={}", self.boundary)))
     }
 }
 
